@@ -180,6 +180,10 @@ def main(argv=None):
 
     results = discharge.discharge_all([o for _, o in all_obls], budget_ms=budget) if all_obls else []
     n_obl = n_dis = 0
+    slow = sorted(((r["solver_s"], o.name, r["tried"]) for (_, o), r in zip(all_obls, results)), reverse=True)[:6]
+    if args.verbose:
+        for t, n, tr in slow:
+            print(f"SLOW {t:.1f}s {n} {tr}")
     for (cd, o), res in zip(all_obls, results):
         solver_s += res["solver_s"]
         clause = o.meta["clause"]
